@@ -8,6 +8,7 @@
 #include "vh.h"
 
 #include <algorithm>
+#include <cmath>
 #include <sys/stat.h>
 
 using namespace vh;
@@ -24,6 +25,7 @@ struct FileSet
     int depth = 0;
     bool unitsLib = false;
     bool cnOnlyUnits = false;
+    bool nameClash = false;
 };
 
 // structural class of a before/after difference reported by firstDiff()
@@ -54,6 +56,146 @@ static std::string changeClass(const std::string &diff)
     }
     std::string kw = trim(la).substr(0, trim(la).find(' '));
     return kw.empty() ? "other" : kw;
+}
+
+// ---- what a units definition MEANS: product of standard (or user base) unit names with exponents, and a factor ----
+// Standard units are opaque names: both sides of every comparison are built from the same definitions.
+struct Meaning
+{
+    std::map<std::string, double> base;
+    double log10Factor = 0.0;
+    bool ok = true;
+};
+
+static bool sameMeaningFwd(const Meaning &a, const Meaning &b);
+
+static double prefixExponent(const std::string &p, bool &ok)
+{
+    static const std::map<std::string, int> named = {{"yotta", 24}, {"zetta", 21}, {"exa", 18}, {"peta", 15}, {"tera", 12}, {"giga", 9}, {"mega", 6}, {"kilo", 3}, {"hecto", 2}, {"deca", 1}, {"deci", -1}, {"centi", -2}, {"milli", -3}, {"micro", -6}, {"nano", -9}, {"pico", -12}, {"femto", -15}, {"atto", -18}, {"zepto", -21}, {"yocto", -24}};
+    if (p.empty()) {
+        return 0.0;
+    }
+    auto it = named.find(p);
+    if (it != named.end()) {
+        return it->second;
+    }
+    char *end = nullptr;
+    double v = strtod(p.c_str(), &end);
+    ok = ok && end != nullptr && *end == 0;
+    return v;
+}
+
+static bool isStandardName(const std::string &n)
+{
+    static const std::set<std::string> names = {"ampere", "becquerel", "candela", "coulomb", "dimensionless", "farad", "gram", "gray", "henry", "hertz", "joule", "katal", "kelvin", "kilogram", "litre", "lumen", "lux", "metre", "mole", "newton", "ohm", "pascal", "radian", "second", "siemens", "sievert", "steradian", "tesla", "volt", "watt", "weber"};
+    return names.count(n) != 0U;
+}
+
+static UnitsPtr followImports(UnitsPtr u)
+{
+    for (int hop = 0; u != nullptr && u->isImport() && hop < 20; ++hop) {
+        auto src = u->importSource();
+        auto mdl = src != nullptr ? src->model() : nullptr;
+        u = mdl != nullptr ? mdl->units(u->importReference()) : nullptr;
+    }
+    return u;
+}
+
+static Meaning meaningOf(const UnitsPtr &u0, int depth = 0);
+
+// At which nesting level does the flattened definition start to mean something else than the source definition?
+// 0: the units themselves are defined differently (children differ); n >= 1: a reference n levels down resolves to units
+// of a different meaning although everything above it is the same.
+static int divergenceLevel(const UnitsPtr &src0, const UnitsPtr &flat0, int depth = 0)
+{
+    UnitsPtr src = followImports(src0);
+    UnitsPtr flt = followImports(flat0);
+    if (src == nullptr || flt == nullptr || depth > 10 || src->unitCount() != flt->unitCount()) {
+        return 0;
+    }
+    auto sm = std::dynamic_pointer_cast<Model>(src->parent());
+    auto fm = std::dynamic_pointer_cast<Model>(flt->parent());
+    for (size_t i = 0; i < src->unitCount(); ++i) {
+        std::string sr = src->unitAttributeReference(i);
+        std::string fr = flt->unitAttributeReference(i);
+        bool su = sm != nullptr && sm->hasUnits(sr);
+        bool fu = fm != nullptr && fm->hasUnits(fr);
+        if (!su && !fu) {
+            if (sr != fr) {
+                return 0;
+            }
+            continue;
+        }
+        if (su != fu) {
+            return 0;
+        }
+        Meaning a = meaningOf(sm->units(sr));
+        Meaning b = meaningOf(fm->units(fr));
+        if (!a.ok || !b.ok || !sameMeaningFwd(a, b)) {
+            return 1 + divergenceLevel(sm->units(sr), fm->units(fr), depth + 1);
+        }
+    }
+    return 0;
+}
+
+static Meaning meaningOf(const UnitsPtr &u0, int depth)
+{
+    Meaning m;
+    UnitsPtr u = followImports(u0);
+    if (u == nullptr || depth > 20 || u->isImport()) {
+        m.ok = false;
+        return m;
+    }
+    auto model = std::dynamic_pointer_cast<Model>(u->parent());
+    if (u->unitCount() == 0) {
+        m.base[model != nullptr && model->hasUnits(u->name()) ? "user-base:" + u->name() : u->name()] = 1.0;
+        return m;
+    }
+    for (size_t i = 0; i < u->unitCount(); ++i) {
+        std::string ref;
+        std::string prefix;
+        std::string id;
+        double exp = 1.0;
+        double mult = 1.0;
+        u->unitAttributes(i, ref, prefix, exp, mult, id);
+        Meaning c;
+        if (model != nullptr && model->hasUnits(ref)) {
+            c = meaningOf(model->units(ref), depth + 1);
+        } else if (isStandardName(ref)) {
+            c.base[ref] = 1.0;
+        } else {
+            c.ok = false; // a reference to units that do not exist
+        }
+        m.ok = m.ok && c.ok && mult > 0.0;
+        double pe = prefixExponent(prefix, m.ok);
+        m.log10Factor += exp * (std::log10(mult > 0.0 ? mult : 1.0) + pe + c.log10Factor);
+        for (const auto &kv : c.base) {
+            m.base[kv.first] += exp * kv.second;
+        }
+    }
+    for (auto it = m.base.begin(); it != m.base.end();) {
+        it = (it->second == 0.0 || it->first == "dimensionless") ? m.base.erase(it) : std::next(it);
+    }
+    return m;
+}
+
+static bool sameMeaning(const Meaning &a, const Meaning &b)
+{
+    return a.base == b.base && std::fabs(a.log10Factor - b.log10Factor) < 1e-9;
+}
+
+static bool sameMeaningFwd(const Meaning &a, const Meaning &b)
+{
+    return sameMeaning(a, b);
+}
+
+static std::string meaningText(const Meaning &m)
+{
+    std::string s;
+    for (const auto &kv : m.base) {
+        s += kv.first + "^" + std::to_string(kv.second) + " ";
+    }
+    return s + "x 10^" + std::to_string(m.log10Factor);
 }
 
 static std::vector<int> subtree(const IrModel &ir, int root)
@@ -257,6 +399,73 @@ static FileSet split(const IrModel &flat, Rng &rng)
         ul.units = flat.units;
         fs.files.emplace_back("units_lib.cellml", ul);
     }
+    // Name clashes with DIFFERENT meaning: the root defines, under a name that a library file (or the units library)
+    // uses for something else, units that nothing in the root refers to.  Imported units and components keep the
+    // meaning they have in their own file, so the flattener has to rename one of the two and follow the rename through
+    // units references, variables and cn elements.
+    if (fs.files.size() > 1 && rng.chance(0.5)) {
+        IrModel &root = fs.files[0].second;
+        std::set<std::string> referenced;
+        for (const auto &u : root.units) {
+            if (u.import < 0) {
+                for (const auto &k : u.units) {
+                    referenced.insert(k.ref);
+                }
+            }
+        }
+        std::function<void(const ExprP &)> cnUnits = [&](const ExprP &e) {
+            if (e == nullptr) {
+                return;
+            }
+            if (e->op == Op::CN) {
+                referenced.insert(e->cnUnits);
+            }
+            for (const auto &k : e->kids) {
+                cnUnits(k);
+            }
+        };
+        for (const auto &c : root.comps) {
+            for (const auto &v : c.vars) {
+                referenced.insert(v.units);
+            }
+            for (const auto &mm : c.math) {
+                for (const auto &e : mm) {
+                    cnUnits(e);
+                }
+            }
+        }
+        auto alien = [](IrUnits &u) {
+            u.units.clear();
+            u.import = -1;
+            u.importRef.clear();
+            IrUnit k;
+            k.ref = "candela";
+            k.hasExp = true;
+            k.exp = "2";
+            u.units.push_back(k);
+        };
+        int made = 0;
+        // (a) units the root defines itself but does not use
+        for (auto &u : root.units) {
+            if (u.import < 0 && referenced.count(u.name) == 0U && made < 3 && rng.chance(0.6)) {
+                alien(u);
+                ++made;
+            }
+        }
+        // (b) names only the other files know
+        for (size_t fi = 1; fi < fs.files.size() && made < 3; ++fi) {
+            for (const auto &u : fs.files[fi].second.units) {
+                if (root.findUnits(u.name) < 0 && made < 3 && rng.chance(0.3)) {
+                    IrUnits nu;
+                    nu.name = u.name;
+                    alien(nu);
+                    root.units.push_back(nu);
+                    ++made;
+                }
+            }
+        }
+        fs.nameClash = made > 0;
+    }
     return fs;
 }
 
@@ -312,8 +521,28 @@ void vh_run_case(Ctx &ctx)
             k.ref = flatIr.units[i].units[0].ref;
             base.units.push_back(k);
             flatIr.units[i].units[0].ref = base.name; // prefix / multiplier stay on an exponent-1 child
+            if (rng.chance(0.5)) {
+                // three levels: x -> x_base -> x_base0 -> standard unit
+                IrUnits base0;
+                base0.name = base.name + "0";
+                IrUnit k0;
+                k0.ref = base.units[0].ref;
+                base0.units.push_back(k0);
+                base.units[0].ref = base0.name;
+                flatIr.units.push_back(base0);
+            }
             flatIr.units.push_back(base);
             chains = true;
+        }
+    }
+    // several <math> elements per component (the flattener rewrites math block by block when cn units are renamed)
+    for (auto &c : flatIr.comps) {
+        if (c.math.size() == 1 && c.math[0].size() >= 2 && rng.chance(0.4)) {
+            size_t cut = 1 + rng.below(c.math[0].size() - 1);
+            std::vector<ExprP> second(c.math[0].begin() + static_cast<long>(cut), c.math[0].end());
+            c.math[0].resize(cut);
+            c.math.push_back(second);
+            stat("components_with_two_math_blocks");
         }
     }
     FileSet fs = split(flatIr, rng);
@@ -327,7 +556,7 @@ void vh_run_case(Ctx &ctx)
         replay += "<!-- ===== file " + f.first + " ===== -->\n" + text + "\n";
     }
     std::string shape = "files=" + std::to_string(fs.files.size()) + " imported-subtrees=" + std::to_string(fs.importedSubtrees) + " depth=" + std::to_string(fs.depth) + (fs.unitsLib ? " units-lib" : "") + (cnOnly ? " cn-units" : "");
-    std::string tagFeatures = std::string(fs.unitsLib ? "+units-lib" : "") + (chains ? "+units-chains" : "") + (cnOnly ? "+cn-units" : "") + (fs.depth >= 2 ? "+nested-imports" : "");
+    std::string tagFeatures = std::string(fs.unitsLib ? "+units-lib" : "") + (chains ? "+units-chains" : "") + (cnOnly ? "+cn-units" : "") + (fs.depth >= 2 ? "+nested-imports" : "") + (fs.nameClash ? "+units-name-clash" : "");
     seen("hierarchy_shape", "files" + std::to_string(std::min<size_t>(fs.files.size(), 6)) + "-depth" + std::to_string(fs.depth) + tagFeatures);
 
     auto parser = Parser::create(true);
@@ -391,10 +620,66 @@ void vh_run_case(Ctx &ctx)
     if (flat->hasImports()) {
         viol("C06", "flat-model-has-imports" + tagFeatures, "", replay);
     }
+    std::string flatText = Printer::create()->printModel(flat);
+    // ---- units keep their meaning
+    // (a) units the root imports directly: the flattened definition means what the definition in the source file means
+    for (size_t i = 0; i < root->unitsCount(); ++i) {
+        auto ru = root->units(i);
+        if (!ru->isImport()) {
+            continue;
+        }
+        Meaning want = meaningOf(ru);
+        auto fu = flat->units(ru->name());
+        if (!want.ok || fu == nullptr) {
+            continue;
+        }
+        Meaning got = meaningOf(fu);
+        stat("imported_units_meanings_compared");
+        if (!got.ok || !sameMeaning(want, got)) {
+            viol("C06", std::string("flat-imported-units-meaning-changed:") + (got.ok ? "different" : "undefined") + ":level" + std::to_string(divergenceLevel(ru, fu)), "units '" + ru->name() + "' imported by the root mean " + meaningText(want) + " in their source file and " + (got.ok ? meaningText(got) : std::string("<undefined>")) + " in the flattened model", replay + "\n<!-- ===== flattened ===== -->\n" + flatText);
+            break;
+        }
+    }
+    // (b) every variable of the flattened model has units that mean what the variable's units mean in the single-file
+    //     rendering of the same system
+    {
+        auto single = Parser::create(true)->parseModel(writeCellml2(flatIr, WriteStyle()));
+        std::map<std::string, ComponentPtr> flatComps;
+        for (const auto &c : allComponents(flat)) {
+            flatComps[c->name()] = c;
+        }
+        bool reported = false;
+        for (const auto &c : single != nullptr ? allComponents(single) : std::vector<ComponentPtr>()) {
+            auto fc = flatComps.find(c->name());
+            if (fc == flatComps.end()) {
+                continue;
+            }
+            for (size_t vi = 0; vi < c->variableCount() && !reported; ++vi) {
+                auto v = c->variable(vi);
+                auto fv = fc->second->variable(v->name());
+                if (fv == nullptr || v->units() == nullptr || fv->units() == nullptr) {
+                    continue;
+                }
+                Meaning want = meaningOf(single->hasUnits(v->units()->name()) ? single->units(v->units()->name()) : v->units());
+                UnitsPtr fu = flat->hasUnits(fv->units()->name()) ? flat->units(fv->units()->name()) : fv->units();
+                Meaning got = meaningOf(fu);
+                if (!want.ok) {
+                    continue;
+                }
+                stat("variable_units_meanings_compared");
+                if (!got.ok || !sameMeaning(want, got)) {
+                    // which way did the variable come into the flat model?
+                    bool viaImport = root->component(c->name(), true) == nullptr || root->component(c->name(), true)->isImport();
+                    viol("C06", std::string("flat-variable-units-meaning-changed:") + (got.ok ? "different" : "undefined") + (viaImport ? ":component-from-import" : ":component-of-root") + ":level" + std::to_string(divergenceLevel(single->hasUnits(v->units()->name()) ? single->units(v->units()->name()) : v->units(), fu)),
+                         "variable " + c->name() + "." + v->name() + " has units '" + v->units()->name() + "' = " + meaningText(want) + "; in the flattened model its units '" + fv->units()->name() + "' mean " + (got.ok ? meaningText(got) : std::string("<undefined>")), replay + "\n<!-- ===== flattened ===== -->\n" + flatText);
+                    reported = true;
+                }
+            }
+        }
+    }
     auto validator = Validator::create();
     validator->validateModel(flat);
     monitorLogger(*validator, "Validator::validateModel(flat)", replay);
-    std::string flatText = Printer::create()->printModel(flat);
     if (sourcesValid && validator->issueCount() != 0) {
         viol("C06", "flat-model-invalid:" + ruleName(validator->issue(0)->referenceRule()) + tagFeatures, issueSummary(*validator) + "\nflattened:\n" + truncateForLog(flatText, 3000), replay);
         caseInfo("F" + hex64(fnv1a(shape)), true, shape + " -> invalid flat model");
